@@ -47,7 +47,7 @@ Definition x_after (cf : cfg) (ver : N) : state :=
   | _ => empty_state 98
   end.
 
-(* The tree before commit f4d2f2ff (flag v2_rollback = false): a payload-V2
+(* The tree before commit 523f0a27 (flag v2_rollback = false): a payload-V2
    withdrawal leaves its hashes recorded after the rollback.  Replayed on the
    real ChainStoreFFLDB (fixture test TestStoreV2, harness corpus history 1). *)
 Theorem C13_disconnect_connect_refuted_before_fix :
